@@ -36,7 +36,7 @@ func newStats() *stats { return &stats{Dist: map[string]int{}, Extra: map[string
 
 func (s *stats) count(k string) { s.Dist[k]++ }
 
-const shardSize = 400
+const shardSize = 100
 
 type coqCase struct {
 	id   int
